@@ -1,10 +1,26 @@
-use fatfs_verif::props::c03dots::*;
+use fatfs_verif::ops::{Op, Run, RunCfg, Aspect};
 use fatfs_verif::vol::VolCfg;
 fn main() {
-    for p in [1usize, 12] {
-        for op in dot_ops() {
-            let c = DotCase { vol: VolCfg::from_preset(p), ops: vec![op.clone()] };
-            if let Some(v) = eval(&c).violation { println!("FAT{} {}", c.vol.fat, &v[..v.len().min(230)]); }
-        }
+    let v = VolCfg::from_preset(1);
+    let cs = v.cluster_size();
+    let ops = vec![
+        Op::CreateFile { via: 0, path: "t.bin".into(), keep: 1 },
+        Op::Write { h: 0, len: 3 * cs, seed: 1 },
+        Op::Flush { h: 0 },
+        Op::Seek { h: 0, whence: 0, off: cs as i64 },
+        Op::WriteRetry { h: 0, len: 40, seed: 5, k: 0, interrupted: false },
+        Op::Flush { h: 0 },
+    ];
+    let mut rc = RunCfg::new(&[Aspect::Panic]);
+    rc.flush_each = false;
+    let mut run = Run::new(&rc, &v).unwrap();
+    for (i, op) in ops.iter().enumerate() {
+        if matches!(op, Op::WriteRetry { .. }) { run.dev.with(|d| { d.log_calls = true; d.log.clear(); }); }
+        let r = run.exec(i, op);
+        if matches!(op, Op::WriteRetry { .. }) { for c in run.dev.with(|d| d.log.clone()) { println!("{:?}", c); } }
+        println!("{:?} -> {:?} trace {:?}", op, r.map_err(|e| e.msg), run.trace.classes.keys().filter(|k| k.contains("write_") || k.contains("fault")).collect::<Vec<_>>());
     }
+    let dec = run.dev.with_store(|s| fatfs_verif::refdec::decode(s, fatfs_verif::refdec::DecodeOpts::default())).unwrap();
+    println!("findings {:?}", dec.findings);
+    for o in &dec.objects { println!("{} {:?}", o.path, o.clusters); }
 }
